@@ -224,10 +224,8 @@ func (s *storage) Fetch(ctx context.Context, plainBR blob.Ref) (io.ReadCloser, u
 		return nil, 0, err
 	}
 
-	// We have a signed statement in the meta blob that attests that the
-	// ciphertext hash corresponds to the plaintext hash, so no need to check
-	// the latter.  However, check the former to make sure the encrypted blob
-	// was not swapped for another.
+	// Check the ciphertext hash to make sure the encrypted blob was not
+	// swapped for another.
 	if !encBR.HashMatches(encHash) {
 		return nil, 0, blobserver.ErrCorruptBlob
 	}
@@ -236,6 +234,21 @@ func (s *storage) Fetch(ctx context.Context, plainBR blob.Ref) (io.ReadCloser, u
 	plainBytes := bytes.NewBuffer(nil)
 	if err := s.decryptBlob(plainBytes, encBytes); err != nil {
 		return nil, 0, fmt.Errorf("encrypt: encrypted blob %s failed validation: %w", encBR, err)
+	}
+
+	// The meta entry that led us here is only as trustworthy as the meta
+	// store: blob and meta ciphertexts are encrypted under the same key and
+	// nothing tells them apart, so the ciphertext of a user blob whose
+	// plaintext looks like a meta file can be planted in the meta store and
+	// map any plaintext ref to any stored ciphertext. Never hand out bytes
+	// that do not hash to the ref that was asked for.
+	plainHash := plainBR.Hash()
+	if plainHash == nil {
+		return nil, 0, fmt.Errorf("encrypt: unsupported blobref hash for %v", plainBR)
+	}
+	plainHash.Write(plainBytes.Bytes())
+	if !plainBR.HashMatches(plainHash) {
+		return nil, 0, blobserver.ErrCorruptBlob
 	}
 
 	return io.NopCloser(plainBytes), plainSize, nil
